@@ -126,7 +126,12 @@ func keyFromSeed(s string) (ed25519.PublicKey, ed25519.PrivateKey) {
 // plJSON renders an abstract power-levels content.
 func plJSON(c *absPL, lad [5]int64) json.RawMessage {
 	lv := func(path string, r int) string {
-		v := lad[r]
+		var v int64
+		if r == 8 {
+			v = 1<<53 - 1 // rank NoPLCreator: the implicit level of the create sender while there is no power-levels event
+		} else {
+			v = lad[r]
+		}
 		if c.SpK != path || c.SpKind == "int" || c.SpKind == "" {
 			return strconv.FormatInt(v, 10)
 		}
